@@ -140,6 +140,19 @@ func conflictSet(i int64, seed int64) []file {
 		b1.WriteString("container c;\n}\n")
 		fs = append(fs, file{na, b1.String()})
 		fs = append(fs, file{nb, "module m2 { namespace \"urn:m2\"; prefix m2;\n" + strings.Repeat("\n", r.Intn(3)) + "augment \"/m2:nope\" { leaf a { type string; } }\n}\n"})
+	case 17: // augments that can only be applied after the implicit cases exist (their path runs through one), from two or three modules: in conflict (one name added twice) or dependent (one augments what another brings)
+		fs = append(fs, file{"t.yang", "module t { namespace \"urn:t\"; prefix t; container c { choice ch { container x { } leaf y { type string; } } } }"})
+		names := []string{"p", "q", "r"}[:2+r.Intn(2)]
+		for k, n := range names {
+			body := fmt.Sprintf("augment /t:c/t:ch/t:x/t:x { leaf %s { type string; } }", pick("extra", "extra", "from"+n))
+			if k > 0 && r.Intn(2) == 0 {
+				body = fmt.Sprintf("augment /t:c/t:ch/t:x/t:x/t:%s { leaf deep%s { type string; } }", pick("extra", "from"+names[k-1], "cont"+names[k-1]), n)
+			}
+			if r.Intn(3) == 0 {
+				body += fmt.Sprintf(" augment /t:c/t:ch/t:x/t:x { container cont%s { } }", n)
+			}
+			fs = append(fs, file{n + ".yang", fmt.Sprintf("module %s { namespace \"urn:%s\"; prefix %s; import t { prefix t; } %s }", n, n, n, body)})
+		}
 	case 16: // one identity defined by two or three loaded revisions of a module and derived from an identity of another module: entries of one list that differ in nothing but the revision (nothing else is wrong with the set, so that the trees are compared)
 		fs = append(fs, file{"idb.yang", "module idb { namespace \"urn:idb\"; prefix idb; identity base; identity mid { base base; } leaf r { type identityref { base base; } } leaf rm { type identityref { base mid; } } }"})
 		for k, d := range []string{"2019-01-01", "2020-01-01", "2021-01-01"}[:2+r.Intn(2)] {
